@@ -99,13 +99,16 @@ def run(an: Analysis, rep):
                 is_type = isinstance(p_, ast.Call) and isinstance(p_.func, ast.Name) and p_.func.id == "isinstance"
                 # de-duplication: `<yielded value> not in seen`, where `seen` is a local set that only ever receives yielded values
                 is_dedup = False
+                # the key is the yielded value itself or the operand it is taken from (`arg` for `yield arg.constant`)
+                def _is_key(e):
+                    return y.value is not None and (ast.dump(e) == ast.dump(y.value) or (isinstance(y.value, ast.Attribute) and ast.dump(e) == ast.dump(y.value.value)))
                 if isinstance(p_, ast.Compare) and len(p_.ops) == 1 and isinstance(p_.ops[0], ast.NotIn) and isinstance(p_.comparators[0], ast.Name) and isinstance(y, ast.Yield) \
-                        and y.value is not None and ast.dump(p_.left) == ast.dump(y.value):
+                        and y.value is not None and _is_key(p_.left):
                     sname = p_.comparators[0].id
                     inits = [a for a in ast.walk(fn.node) if isinstance(a, ast.Assign) and any(isinstance(t, ast.Name) and t.id == sname for t in a.targets)]
                     adds = [c for c in ast.walk(fn.node) if isinstance(c, ast.Call) and isinstance(c.func, ast.Attribute) and isinstance(c.func.value, ast.Name) and c.func.value.id == sname]
                     is_dedup = len(inits) == 1 and isinstance(inits[0].value, ast.Call) and getattr(inits[0].value.func, "id", "") == "set" and not inits[0].value.args \
-                        and all(c.func.attr == "add" and len(c.args) == 1 and ast.dump(c.args[0]) == ast.dump(y.value) for c in adds) and bool(adds)
+                        and all(c.func.attr == "add" and len(c.args) == 1 and ast.dump(c.args[0]) == ast.dump(p_.left) for c in adds) and bool(adds)
                 if not (is_type or is_dedup) or not pos:
                     nontype.append(p_)
         rep.add("R14.1", f"{fn.qual}::yield at line-independent guard {norm_src(st)[:40]}", not nontype, loc(fn.module, st),
@@ -158,6 +161,15 @@ def run(an: Analysis, rep):
         uniq_iter = any(isinstance(n, ast.For) and isinstance(n.iter, ast.Call) and ((isinstance(n.iter.func, ast.Attribute) and n.iter.func.attr == "fromkeys") or
                                                                                     (isinstance(n.iter.func, ast.Name) and n.iter.func.id in ("set", "frozenset")))
                         and any(x is y for x in ast.walk(n)) for n in ast.walk(fn.node))
+        # ... and the set is keyed by the OPERAND (the Constant arg, whose equality includes the position of a duplicated entry), not by the nested
+        # code object's value: two entries of co_consts can hold equal values (two lambdas whose only constant is a NaN)
+        by_value = [c for g, pos in gs for c in ast.walk(g) if isinstance(c, ast.Compare) and isinstance(c.ops[0], ast.NotIn) and y.value is not None
+                    and ast.dump(c.left) == ast.dump(y.value) and isinstance(y.value, ast.Attribute)]
+        if dedup:
+            rep.add("R14.4", f"{fn.qual}::the once-only set is keyed by the table entry, not by value", not by_value, loc(fn.module, st),
+                    "keyed by the operand (its position override keeps duplicated entries apart)" if not by_value else
+                    f"`{norm_src(by_value[0])}` keys the set by the nested code object's VALUE: two different entries of co_consts whose code objects decode to equal data (equality "
+                    f"identifies all NaNs: `x = [lambda: 1e999-1e999, lambda: 1e999-1e999]`) are yielded once - all_code_data() returns fewer objects than the walk over co_consts")
         rep.add("R14.4", f"{fn.qual}::operands that load the same constant are yielded once", dedup or uniq_iter, loc(fn.module, st),
                 "a set of already yielded constants (or an iteration over distinct constants) guards the yield" if dedup or uniq_iter else
                 f"`{norm_src(st)}` runs once per *instruction*: a nested code object loaded by two instructions (`x = [lambda: 0, lambda: 0]` - CPython stores the two equal lambdas "
